@@ -544,4 +544,174 @@ theorem cinv_reach {maxTTL t0 period : Int} {s : CState} (h : Reach maxTTL t0 pe
   | init => exact cinv_init _ _ _
   | step l _ hs ih => exact cinv_step ih hs
 
+/-! ### the reference map agrees with the backwards scan over the run's labels -/
+
+/-- History (most recent first) extended by one label. -/
+def projCons (l : Label) (hrev : List Op) : List Op :=
+  match projOp l with
+  | some o => o :: hrev
+  | none => hrev
+
+/-- `ref` versus the scan `lastLive` over the callers' labels so far. -/
+def RefAgree (M : Int) (s : CState) (hrev : List Op) : Prop :=
+  s.maxTTL = M ∧ ∀ k x, mget s.ref k = some x →
+    ∃ ttl el, lastLive k hrev 0 = some (x.1.val, ttl, el) ∧ x.1.exp = s.now - (el : Int) + durNs M ttl
+
+/-- Labels that are not caller operations leave clock and configuration alone and can only
+shrink `ref`. -/
+theorem cstep_frame {s s' : CState} {l : Label} (hs : cstep s l = some s') (hp : projOp l = none) :
+    s'.now = s.now ∧ s'.maxTTL = s.maxTTL ∧ ∀ k x, mget s'.ref k = some x → mget s.ref k = some x := by
+  cases l
+  case set => simp [projOp] at hp
+  case delete => simp [projOp] at hp
+  case advance => simp [projOp] at hp
+  case cDelOne id k st =>
+    simp only [cstep] at hs
+    split at hs
+    · split at hs
+      · split at hs
+        · cases hs; exact ⟨rfl, rfl, fun _ _ h => h⟩
+        · split at hs
+          · cases hs
+            refine ⟨rfl, rfl, fun k0 x hx => ?_⟩
+            have hx' : mget (if (_ : Cleaner).isReset = true then mdelKeys s.ref [k] else s.ref) k0 = some x := hx
+            split at hx'
+            · simp only [mget_delKeys_single] at hx'
+              split at hx'
+              · cases hx'
+              · exact hx'
+            · exact hx'
+          · cases hs; exact ⟨rfl, rfl, fun _ _ h => h⟩
+      · cases hs
+    · cases hs
+  all_goals
+    simp only [cstep] at hs
+    repeat' split at hs
+    all_goals first
+      | (cases hs; exact ⟨rfl, rfl, fun _ _ h => h⟩)
+      | cases hs
+
+theorem refAgree_init (maxTTL t0 period : Int) : RefAgree maxTTL (CState.init maxTTL t0 period) [] :=
+  ⟨rfl, fun k x h => by simp [CState.init, mget] at h⟩
+
+theorem refAgree_step {M : Int} {s s' : CState} {l : Label} {hrev : List Op}
+    (h : RefAgree M s hrev) (hs : cstep s l = some s') : RefAgree M s' (projCons l hrev) := by
+  obtain ⟨hM, hR⟩ := h
+  cases hp : projOp l with
+  | none =>
+    obtain ⟨h1, h2, h3⟩ := cstep_frame hs hp
+    simp only [projCons, hp]
+    refine ⟨h2 ▸ hM, fun k x hx => ?_⟩
+    rw [h1]
+    exact hR k x (h3 k x hx)
+  | some o =>
+    cases l with
+    | set k v ttl =>
+      simp only [projOp, Option.some.injEq] at hp
+      subst hp
+      simp only [projCons, projOp]
+      simp only [cstep] at hs
+      split at hs
+      · cases hs
+      · rename_i hb
+        have hpos : 0 < ttl := by
+          have : ¬ ttl ≤ 0 := hb
+          omega
+        cases hs
+        refine ⟨hM, fun k0 x hx => ?_⟩
+        simp only [mget_put] at hx
+        by_cases hk : k0 = k
+        · subst hk
+          simp only [if_true, Option.some.injEq] at hx
+          subst hx
+          refine ⟨ttl, 0, by simp [lastLive, hpos], ?_⟩
+          simp [hM]
+        · simp only [hk, if_false] at hx
+          obtain ⟨t, el, h1, h2⟩ := hR k0 x hx
+          refine ⟨t, el, ?_, h2⟩
+          have : ¬ (k = k0 ∧ 0 < ttl) := fun hh => hk hh.1.symm
+          simp only [lastLive, this, if_false]
+          exact h1
+    | delete k =>
+      simp only [projOp, Option.some.injEq] at hp
+      subst hp
+      simp only [projCons, projOp]
+      simp only [cstep] at hs
+      cases hs
+      refine ⟨hM, fun k0 x hx => ?_⟩
+      simp only [mget_delKeys_single] at hx
+      split at hx
+      · cases hx
+      · rename_i hk
+        obtain ⟨t, el, h1, h2⟩ := hR k0 x hx
+        refine ⟨t, el, ?_, h2⟩
+        have : ¬ k = k0 := fun hh => hk hh.symm
+        simp only [lastLive, this, if_false]
+        exact h1
+    | advance d =>
+      simp only [projOp, Option.some.injEq] at hp
+      subst hp
+      simp only [projCons, projOp]
+      simp only [cstep] at hs
+      have key : s'.ref = s.ref ∧ s'.now = s.now + d ∧ s'.maxTTL = s.maxTTL := by
+        split at hs <;> cases hs <;> simp
+      obtain ⟨h1, h2, h3⟩ := key
+      refine ⟨h3 ▸ hM, fun k0 x hx => ?_⟩
+      rw [h1] at hx
+      obtain ⟨t, el, h4, h5⟩ := hR k0 x hx
+      refine ⟨t, el + d, ?_, ?_⟩
+      · simp only [lastLive]
+        rw [lastLive_acc, h4]
+        simp
+      · rw [h2, h5]
+        simp only [Int.natCast_add]
+        omega
+    | get _ _ => simp [projOp] at hp
+    | cBegin _ _ => simp [projOp] at hp
+    | cNow _ => simp [projOp] at hp
+    | cVisit _ _ => simp [projOp] at hp
+    | cSeal _ => simp [projOp] at hp
+    | cDelOne _ _ _ => simp [projOp] at hp
+    | cEnd _ => simp [projOp] at hp
+    | bgTake => simp [projOp] at hp
+    | bgExit => simp [projOp] at hp
+    | stopCall _ => simp [projOp] at hp
+    | stopReturn _ => simp [projOp] at hp
+
+theorem projCons_rev (l : Label) (ls : List Label) (hrev : List Op) :
+    ((l :: ls).filterMap projOp).reverse ++ hrev = (ls.filterMap projOp).reverse ++ projCons l hrev := by
+  unfold projCons
+  cases hp : projOp l with
+  | none => simp [List.filterMap_cons, hp]
+  | some o => simp [List.filterMap_cons, hp]
+
+theorem refAgree_run {M : Int} : ∀ (ls : List Label) (s s' : CState) (hrev : List Op),
+    RefAgree M s hrev → crun s ls = some s' → RefAgree M s' ((ls.filterMap projOp).reverse ++ hrev) := by
+  intro ls
+  induction ls with
+  | nil => intro s s' hrev h hr; simp only [crun, Option.some.injEq] at hr; subst hr; simpa using h
+  | cons l ls ih =>
+    intro s s' hrev h hr
+    simp only [crun] at hr
+    cases hst : cstep s l with
+    | none => simp [hst] at hr
+    | some s1 =>
+      simp only [hst] at hr
+      rw [projCons_rev]
+      exact ih s1 s' _ (refAgree_step h hst) hr
+
+theorem reach_of_crun {maxTTL t0 period : Int} : ∀ (ls : List Label) (a b : CState),
+    Reach maxTTL t0 period a → crun a ls = some b → Reach maxTTL t0 period b := by
+  intro ls
+  induction ls with
+  | nil => intro a b ha h; simp only [crun, Option.some.injEq] at h; subst h; exact ha
+  | cons l ls ih =>
+    intro a b ha h
+    simp only [crun] at h
+    cases hst : cstep a l with
+    | none => simp [hst] at h
+    | some a' =>
+      simp only [hst] at h
+      exact ih a' b (Reach.step _ ha hst) h
+
 end Kit.TTLCache
